@@ -1,6 +1,8 @@
 import Driver.Util
 import KdVerif.Model.TraceCodes
 import KdVerif.Gen.HandlerNames
+import KdVerif.Model.PyIRTc
+import KdVerif.Gen.PyIRTc
 open KdVerif KdVerif.TraceCodes
 namespace Driver.TraceCodes
 
@@ -28,6 +30,21 @@ def cmdCodes : Cmd
     | .ok t => showTable t
     | .error e => s!"err {e.name}"
   | _ => "bad-op"
+
+/-- `tcir <hex text>`: the shape GENERATED from trace_codes.py (`Gen/PyIRTc`) run by `PyIRTc.run`; answers like `codes`. -/
+def cmdTcIR : Cmd
+  | [h] =>
+    if Gen.PyIRTc.codesFn.hasUnsupported || !Gen.PyIRTc.notes.isEmpty then "unsupported" else
+    withText h fun cs =>
+    match KdVerif.PyIRTc.run Gen.PyIRTc.codesFn cs with
+    | .ok t => showTable t
+    | .error e => s!"err {e.name}"
+  | _ => "bad-op"
+
+/-- `tcircheck`: is the generated shape the expected one (`C19.source_is_expected_shape`)? -/
+def cmdTcCheck : Cmd := fun _ =>
+  if Gen.PyIRTc.codesFn = KdVerif.PyIRTc.expected && Gen.PyIRTc.notes.isEmpty then "same"
+  else "differs " ++ (reprStr Gen.PyIRTc.codesFn).replace "\n" " " ++ (if Gen.PyIRTc.notes.isEmpty then "" else " notes")
 
 def cmdLines : Cmd
   | [h] => withText h fun cs => showList (splitLines cs)
@@ -123,7 +140,7 @@ def cmdDecode : Cmd
   | _ => "bad-op"
 
 def commands : List (String × Cmd) :=
-  [("codes", cmdCodes), ("lines", cmdLines), ("split", cmdSplit), ("int16", cmdInt16), ("uclass", cmdUclass),
+  [("codes", cmdCodes), ("tcir", cmdTcIR), ("tcircheck", cmdTcCheck), ("lines", cmdLines), ("split", cmdSplit), ("int16", cmdInt16), ("uclass", cmdUclass),
    ("namecol", cmdNameCol), ("gate", cmdGate), ("decode", cmdDecode)]
 
 end Driver.TraceCodes
